@@ -40,6 +40,11 @@ TABLE = {
             "For each generated case every stopping point of the result stream and every read index is enumerated (fully for logs up to the tier's bound, sampled with boundaries beyond); prefix-ness, exactly-one-finish-after-stop, no-finish-after-error and error propagation held on all of them.",
             "Interrupted reads may be retried or surfaced; byte_count after a stop is unconstrained.",
             "DESIGN.md §3 C16"),
+    "C17": (True, "exploration",
+            "runtime monitoring: Sink event logs of searches over encoded bytes (every strategy, scripted read histories splitting code units and the BOM, hooked buffer capacities) compared with the log of search_slice over an independent one-shot reference transcoding; rg vs rg-on-transcoding at the CLI",
+            "Held on the generated (text, encoding, label/BOM, fragmentation, capacity) cases apart from two listed known findings that live in the third-party transcoding crates: the event log over the encoded input equals the log over its reference UTF-8 transcoding.",
+            "Reference transcoder: own WHATWG UTF-16 decoder, encoding_rs one-shot for windows-1252 / shift_jis.",
+            "DESIGN.md §3 C17"),
 }
 
 PENDING_REASON = "check under construction in this round; not claimed yet (see DESIGN.md for the planned monitor)"
